@@ -1,6 +1,7 @@
 (* C06 -- hand model of optimism/treigen/treigen.py: solve(A, b, Delta).
    `eigh` is an oracle: its result (sig ascending, v = matrix whose COLUMNS are the eigenvectors, given as a list of rows)
-   is an argument.  The hard-case branch is modelled AS WRITTEN: z = v[0] is the first ROW of v.
+   is an argument.  The hard-case branch is modelled as written (after repo commit 5a997d7): z = v[:,0] is the first COLUMN
+   of v, and the sign in tau is +1 when p.z = 0.
    Executable definitions only. *)
 From Coq Require Import ZArith QArith List Bool.
 From OV.base Require Import Num.
@@ -22,12 +23,13 @@ Section Treigen.
   Definition qnorm_squared (bvv s : vec) : T := vdot bvv (vrecip_pow3 s).
   Definition vmean_abs (s : vec) : T := ndiv (nsum (map nabs s)) (nZ (Z.of_nat (length s))).   (* np.mean(np.abs(sig)) *)
 
-  (* the hard-case completion  p + tau*z  with  tau = ddmpp/(pz + sign(pz)*sqrt(pz*pz + ddmpp)) *)
+  (* the hard-case completion  p + tau*z  with  sgn = where(pz < 0, -1, 1),  tau = ddmpp/(pz + sgn*sqrt(pz*pz + ddmpp)) *)
   Definition hard_case_step (p z : vec) (Delta : T) : vec :=
     let pz := vdot p z in
     let pp := vdot p p in
     let ddmpp := nsub (nmul Delta Delta) pp in
-    let tau := ndiv ddmpp (nadd pz (nmul (nsign pz) (nsqrt (nadd (nmul pz pz) ddmpp)))) in
+    let sgn := if nltb pz nzero then nopp nunit else nunit in
+    let tau := ndiv ddmpp (nadd pz (nmul sgn (nsqrt (nadd (nmul pz pz) ddmpp)))) in
     vaxpy p tau z.
 
   Fixpoint secular (fuel n : nat) (bvv sig : vec) (Delta lam pNormSq bError : T) : option (T * nat) :=
@@ -58,7 +60,7 @@ Section Treigen.
       let lam := if nltb minSig eps then nadd (nopp minSig) eps else nzero in
       if andb (nltb minSig eps) (nltb (vnorm (vdiv bv (vshift lam sig))) Delta) then
         let p := vneg (matvec v (vdiv bv (vshift lam sig))) in
-        let z := hd [] v in                            (* v[0] : first ROW, as written *)
+        let z := map (fun row => hd nzero row) v in    (* v[:,0] : first column = lowest eigenvector *)
         (THard, hard_case_step p z Delta)
       else
         let pNormSq := pnorm_squared bvv (vshift lam sig) in
